@@ -11,7 +11,12 @@ TRUSTED_BASE_COMMON = [
 
 def proof_stage(v, prop, extra_obligations=0, extra_discharged=0):
     """lint + full .vo build of Props/<prop>.v + Print Assumptions."""
+    from .. import translate
+    gen_errors = translate.regenerate_all()
     problems = C.coq_lint()
+    dep = {"C18": "freeze", "C17": "seed", "C08": "api"}.get(prop)
+    if dep and dep in gen_errors:
+        problems = problems + [f"translator {dep} failed (fail-closed): {gen_errors[dep]}"]
     pr = C.check_props(prop)
     ok = pr["ok"] and not problems
     v.coverage.update({
